@@ -97,6 +97,35 @@ func runC47(k *eng.Check, tier string) {
 
 	// ---- (2) drop = prepare, then move ----------------------------------------------------
 	if fn := k.Fn(c47Mgr + "DropDatabase"); fn != nil {
+		// the move may have been put into a method of the same receiver that DropDatabase calls (phase split): it is
+		// analysed there; DropDatabase must consume that method's verdict, and the location the method moves must
+		// derive from DropDatabase's own location parameter
+		var hostLoc *ssa.Parameter
+		if top := fn; len(eng.Calls(top, c47MoveDir, false)) == 0 {
+			var topLoc *ssa.Parameter
+			for _, p := range top.Params {
+				if b, ok := p.Type().Underlying().(*types.Basic); ok && b.Kind() == types.String {
+					topLoc = p
+				}
+			}
+			for _, ci := range eng.Calls(top, func(q ssa.CallInstruction) bool {
+				h := q.Common().StaticCallee()
+				return h != nil && len(h.Blocks) > 0 && h.Signature.Recv() != nil && top.Signature.Recv() != nil &&
+					types.Identical(h.Signature.Recv().Type(), top.Signature.Recv().Type()) && len(eng.Calls(h, c47MoveDir, false)) > 0
+			}, false) {
+				h := ci.Common().StaticCallee()
+				k.FuncsSeen[h] = true
+				k.OnlyAfter("drop-moves", top, "DropDatabase succeeds only after its moving phase "+eng.Name(h)+" returned nil", eng.SuccessExits(top), 1, eng.OkCut(ci))
+				for i, a := range ci.Common().Args {
+					if i < len(h.Params) && topLoc != nil && eng.ShortType(a.Type()) == "string" && eng.Slice(a, true, func(v ssa.Value) bool { return v == ssa.Value(topLoc) }) {
+						hostLoc = h.Params[i]
+					}
+				}
+				k.Require("drop-move-roles", eng.Name(top)+"#location-handed-on", "the moving phase receives a location derived from DropDatabase's location parameter", hostLoc != nil, c.InstrPos(ci.(ssa.Instruction)), "no string argument of the phase call derives from the location parameter")
+				fn = h
+				break
+			}
+		}
 		exits := eng.SuccessExits(fn)
 		moves := eng.Calls(fn, c47MoveDir, false)
 		k.OnlyAfter("drop-moves", fn, "success exit only after MoveDir returned nil", exits, 1, k.OkCalls(fn, "movedir", c47MoveDir))
@@ -108,6 +137,9 @@ func runC47(k *eng.Check, tier string) {
 			if b, ok := p.Type().Underlying().(*types.Basic); ok && b.Kind() == types.String {
 				loc = p
 			}
+		}
+		if hostLoc != nil {
+			loc = hostLoc
 		}
 		preps := eng.Calls(fn, mPrep, false)
 		for _, mv := range moves {
@@ -177,83 +209,116 @@ func runC47(k *eng.Check, tier string) {
 	// ---- (3) undrop ---------------------------------------------------------------------
 	srcIdx, dstIdx := -1, -1
 	mValidate := eng.Static(c47Mgr + "validateUndropDatabase")
-	if fn := k.Fn(c47Mgr + "validateUndropDatabase"); fn != nil {
-		exits := eng.SuccessExits(fn)
-		mHasPath := eng.Static(c47Sqle + ".hasCaseInsensitivePath")
-		mHasMatch := eng.Static(c47Sqle + ".hasCaseInsensitiveMatch")
-		resOf := func(m eng.CallM, idx int) func(ssa.Value) bool {
-			return func(v ssa.Value) bool {
-				ex, ok := v.(*ssa.Extract)
-				if !ok || ex.Index != idx {
-					return false
-				}
-				call, ok := ex.Tuple.(*ssa.Call)
-				return ok && m(call)
+	mHasPath := eng.Static(c47Sqle + ".hasCaseInsensitivePath")
+	mHasMatch := eng.Static(c47Sqle + ".hasCaseInsensitiveMatch")
+	resOf := func(m eng.CallM, idx int) func(ssa.Value) bool {
+		return func(v ssa.Value) bool {
+			ex, ok := v.(*ssa.Extract)
+			if !ok || ex.Index != idx {
+				return false
+			}
+			call, ok := ex.Tuple.(*ssa.Call)
+			return ok && m(call)
+		}
+	}
+	isSourcePath := func(r ssa.Value) bool {
+		call, ok := eng.Origin(r).(*ssa.Call)
+		if !ok || eng.CalleeName(call) != "path/filepath.Join" {
+			return false
+		}
+		okHold, okExact := false, false
+		for j, a := range eng.FlatArgs(call) {
+			if j == 0 && isHolding(a) {
+				okHold = true
+			}
+			if j > 0 && resOf(mHasMatch, 1)(eng.Origin(a)) {
+				okExact = true
 			}
 		}
-		k.OnlyAfter("undrop-no-overwrite", fn, "success only on the edge where hasCaseInsensitivePath reported 'absent'", exits, 1, eng.BoolEdges(fn, resOf(mHasPath, 0), false))
-		k.OnlyAfter("undrop-no-overwrite", fn, "success only after hasCaseInsensitivePath returned a nil error", exits, 1, k.OkCalls(fn, "haspath", mHasPath))
-		k.OnlyAfter("undrop-found", fn, "success only on the edge where a dropped database with that name was found", exits, 1, eng.BoolEdges(fn, resOf(mHasMatch, 0), true))
-		// which results are source and destination
+		return okHold && okExact && len(eng.FlatArgs(call)) == 2
+	}
+	// the validation may live in validateUndropDatabase or, inlined, in UndropDatabase itself: V is the function
+	// that calls hasCaseInsensitivePath; its guarded points are its success exits (validator) or the MoveDir calls (inline)
+	V, inline := c.Func(c47Mgr+"validateUndropDatabase"), false
+	if V == nil {
+		if u := c.Func(c47Mgr + "UndropDatabase"); u != nil && len(eng.Calls(u, mHasPath, false)) > 0 {
+			V, inline = u, true
+		} else {
+			k.Fn(c47Mgr + "validateUndropDatabase") // records the missing anchor
+		}
+	}
+	if fn := V; fn != nil {
+		k.FuncsSeen[fn] = true
+		exits := eng.SuccessExits(fn)
+		if inline {
+			exits = eng.CallSet(fn, c47MoveDir)
+		}
+		what := "success"
+		if inline {
+			what = "the dropped copy is moved back"
+		}
+		k.OnlyAfter("undrop-no-overwrite", fn, what+" only on the edge where hasCaseInsensitivePath reported 'absent'", exits, 1, eng.BoolEdges(fn, resOf(mHasPath, 0), false))
+		k.OnlyAfter("undrop-no-overwrite", fn, what+" only after hasCaseInsensitivePath returned a nil error", exits, 1, k.OkCalls(fn, "haspath", mHasPath))
+		k.OnlyAfter("undrop-found", fn, what+" only on the edge where a dropped database with that name was found", exits, 1, eng.BoolEdges(fn, resOf(mHasMatch, 0), true))
+		// which values are source and destination
 		paths := eng.Calls(fn, mHasPath, false)
 		var checked ssa.Value
 		if len(paths) == 1 && len(paths[0].Common().Args) == 2 {
 			checked = eng.Origin(paths[0].Common().Args[1])
 		}
-		nRet := 0
-		for in := range exits.I {
-			ret, ok := in.(*ssa.Return)
-			if !ok {
-				continue
+		if inline {
+			for _, mv := range eng.Calls(fn, c47MoveDir, false) {
+				a := eng.PathArgs(mv)
+				d := len(a) == 2 && checked != nil && eng.Origin(a[1]) == checked
+				sOK := len(a) == 2 && isSourcePath(a[0])
+				k.Require("undrop-validates-destination", eng.Name(fn)+"#destination", "the destination of the move is the very path whose existence was checked", d, c.InstrPos(mv.(ssa.Instruction)), "MoveDir's destination is not the value passed to hasCaseInsensitivePath")
+				k.Require("undrop-source", eng.Name(fn)+"#source", "the source of the move is Join(holding directory, exact-case name found in the holding directory)", sOK, c.InstrPos(mv.(ssa.Instruction)), "MoveDir's source is not filepath.Join(holding dir, exact-case name)")
 			}
-			nRet++
-			s, d := -1, -1
-			for i, r := range ret.Results {
-				r = eng.Origin(r)
-				if checked != nil && r == checked {
-					d = i
+		} else {
+			nRet := 0
+			for in := range exits.I {
+				ret, ok := in.(*ssa.Return)
+				if !ok {
+					continue
 				}
-				if call, ok := r.(*ssa.Call); ok && eng.CalleeName(call) == "path/filepath.Join" {
-					fa := eng.FlatArgs(call)
-					okHold, okExact := false, false
-					for j, a := range fa {
-						if j == 0 && isHolding(a) {
-							okHold = true
-						}
-						if j > 0 && resOf(mHasMatch, 1)(eng.Origin(a)) {
-							okExact = true
-						}
+				nRet++
+				s, d := -1, -1
+				for i, r := range ret.Results {
+					if checked != nil && eng.Origin(r) == checked {
+						d = i
 					}
-					if okHold && okExact && len(fa) == 2 {
+					if isSourcePath(r) {
 						s = i
 					}
 				}
+				k.Require("undrop-validates-destination", eng.Name(fn)+"#destination", "the path returned as destination is the very path whose existence was checked", d >= 0, c.InstrPos(ret), "no result of the success return is the value passed to hasCaseInsensitivePath")
+				k.Require("undrop-source", eng.Name(fn)+"#source", "the source returned is Join(holding directory, exact-case name found in the holding directory)", s >= 0, c.InstrPos(ret), "no result of the success return is filepath.Join(holding dir, exact-case name)")
+				srcIdx, dstIdx = s, d
 			}
-			k.Require("undrop-validates-destination", eng.Name(fn)+"#destination", "the path returned as destination is the very path whose existence was checked", d >= 0, c.InstrPos(ret), "no result of the success return is the value passed to hasCaseInsensitivePath")
-			k.Require("undrop-source", eng.Name(fn)+"#source", "the source returned is Join(holding directory, exact-case name found in the holding directory)", s >= 0, c.InstrPos(ret), "no result of the success return is filepath.Join(holding dir, exact-case name)")
-			srcIdx, dstIdx = s, d
-		}
-		if nRet != 1 {
-			k.Unknown("undrop-validates-destination", eng.Name(fn), "the single success return of the validator", fmt.Sprintf("found %d success Return instructions", nRet))
-			srcIdx, dstIdx = -1, -1
+			if nRet != 1 {
+				k.Unknown("undrop-validates-destination", eng.Name(fn), "the single success return of the validator", fmt.Sprintf("found %d success Return instructions", nRet))
+				srcIdx, dstIdx = -1, -1
+			}
 		}
 	}
 	if fn := k.Fn(c47Mgr + "UndropDatabase"); fn != nil {
 		moves := eng.Calls(fn, c47MoveDir, false)
-		k.OnlyAfter("undrop-validated", fn, "MoveDir only after validateUndropDatabase returned nil", eng.CallSet(fn, c47MoveDir), 1, k.OkCalls(fn, "validate", mValidate))
 		k.OnlyAfter("undrop-validated", fn, "success exit only after MoveDir returned nil", eng.SuccessExits(fn), 1, k.OkCalls(fn, "movedir", c47MoveDir))
-		vals := eng.Calls(fn, mValidate, false)
-		for _, mv := range moves {
-			a := eng.PathArgs(mv)
-			ok := false
-			if len(a) == 2 && srcIdx >= 0 && dstIdx >= 0 {
-				for _, vc := range vals {
-					if eng.ResultOf(a[0], vc, srcIdx) && eng.ResultOf(a[1], vc, dstIdx) {
-						ok = true
+		if !inline {
+			k.OnlyAfter("undrop-validated", fn, "MoveDir only after validateUndropDatabase returned nil", eng.CallSet(fn, c47MoveDir), 1, k.OkCalls(fn, "validate", mValidate))
+			vals := eng.Calls(fn, mValidate, false)
+			for _, mv := range moves {
+				a := eng.PathArgs(mv)
+				ok := false
+				if len(a) == 2 && srcIdx >= 0 && dstIdx >= 0 {
+					for _, vc := range vals {
+						if eng.ResultOf(a[0], vc, srcIdx) && eng.ResultOf(a[1], vc, dstIdx) {
+							ok = true
+						}
 					}
 				}
+				k.Require("undrop-move-roles", eng.Name(fn)+"#MoveDir", "MoveDir(source, destination) uses the validator's source and destination results in that order", ok, c.InstrPos(mv.(ssa.Instruction)), "MoveDir arguments are not (validated source, validated destination)")
 			}
-			k.Require("undrop-move-roles", eng.Name(fn)+"#MoveDir", "MoveDir(source, destination) uses the validator's source and destination results in that order", ok, c.InstrPos(mv.(ssa.Instruction)), "MoveDir arguments are not (validated source, validated destination)")
 		}
 	}
 	if fn := k.Fn(c47Prov + "UndropDatabase"); fn != nil {
